@@ -398,6 +398,15 @@ func renderQuery(axioms []*Term, assumptions []*Term, goal *Term, extraDecls []s
 	if len(strs) >= 2 {
 		sb.WriteString("(assert (distinct " + strings.Join(strs, " ") + "))\n")
 	}
+	// boxing a value into the universal sort is injective
+	for _, n := range names {
+		if n == "box$Int" {
+			if _, ok := ds.funs["unbox$Int"]; !ok {
+				sb.WriteString("(declare-fun " + smtName("unbox$Int") + " (V) Int)\n")
+			}
+			sb.WriteString("(assert (forall ((x!bx Int)) (! (= (" + smtName("unbox$Int") + " (" + smtName("box$Int") + " x!bx)) x!bx) :pattern ((" + smtName("box$Int") + " x!bx)))))\n")
+		}
+	}
 	for _, a := range axioms {
 		sb.WriteString("(assert " + a.String() + ")\n")
 	}
